@@ -211,7 +211,8 @@ def pools(rng):
 
 def sentinel(i, variant):
     """distinct, recognisable int32 ids; variant changes magnitude/sign."""
-    base = (0x0101 * (i + 1), 0x01020304 + 0x01010101 * i, -(1000 + i), 2**31 - 1 - i, -(2**31) + i, i + 1)[variant % 6]
+    base = (0x0101 * (i + 1), 0x01020304 + 0x01010101 * i, -(1000 + i), 2**31 - 1 - i, -(2**31) + i, i + 1,
+            i, 0)[variant % 8]          # variants 6/7: ids 0..11 and all-zero ids (0 is a valid id, not "absent")
     return base
 
 
@@ -306,7 +307,7 @@ def _run(ctx: Ctx, im: Impl, rng):
     n = 0
     for kind in KINDS:
         for mask in range(1 << 13):
-            variant = (mask * 7 + len(kind)) % 6
+            variant = (mask * 7 + len(kind)) % 8
             ids = [sentinel(i, variant) if mask >> i & 1 else None for i in range(12)]
             sid = 4242 if mask >> 12 & 1 else None
             key = 77 + (mask % 5) * 1000
